@@ -237,6 +237,8 @@ def run(ctx):
         except Exception as ex:
             o['sh'] = {'ok': False, 'params': type(ex).__name__, 'group': -1, 'num': -1, 'len': -1}
         obs.append(o)
+    from .render import report_unstable
+    report_unstable(ctx, pr)
     nv, rej, _ = validate_observations('Flags_Val', obs, ctx.workdir, name='c11val', timeout=3000)
     ctx.traces += nv
     by = {o['id']: o for o in obs}
